@@ -181,6 +181,8 @@ def build_sampler(conf: dict, rec: psrun.Recorder | None, out_dir=None):
         ll, vec, bd = tgt.logl_vector, True, None
     elif ev == "vector_reuse":
         ll, vec, bd = tgt.logl_vector_reuse, True, None
+    elif ev == "vector_f32":   # a vectorised likelihood that returns a single-precision batch (GPU / JAX style)
+        ll, vec, bd = (lambda X, _f=tgt.logl_vector: np.asarray(_f(X)).astype(np.float32)), True, None
     elif ev == "blobs":
         ll, vec, bd = tgt.logl_blob, False, "float"
     elif ev == "blobs_f4":   # one scalar blob stored in single precision (pairs only: the recorder's blob provenance assumes float64)
@@ -219,6 +221,12 @@ def build_sampler(conf: dict, rec: psrun.Recorder | None, out_dir=None):
     pool = c["pool"]
     if pool == "perm":
         pool = PermutingPool(seed=c.get("pool_seed", 0))
+    elif pool == "executor":
+        # an executor-style pool: map() and submit() but no close(); holds thread / queue objects that cannot be pickled (one worker
+        # thread: evaluation stays sequential, so the recorder's counters are safe)
+        from concurrent.futures import ThreadPoolExecutor
+
+        pool = ThreadPoolExecutor(max_workers=1)
     elif pool == "faulty":
         pool = FaultyPool(fail_at_map=c.get("fail_at_map", 3))
     s = Sampler(
